@@ -79,8 +79,10 @@ class Jacobian(_Common):
         options = dict(method=method, rel_step=self.step, args=args,
                        kwargs=kwds, bounds=self.bounds, sparsity=self.sparsity)
 
-        grad = approx_derivative(self.fun, x, **options)
-
+        f_0 = self.fun(x, *args, **kwds)
+        grad = approx_derivative(self.fun, x, f0=f_0, **options)
+        if np.ndim(f_0) == 1:  # vector valued function: always a (m, n) matrix, also for m == 1
+            grad = np.atleast_2d(grad)
         return grad
 
 
